@@ -46,6 +46,8 @@ type RelBlock struct {
 	Adds    []int   `json:"adds,omitempty"`
 	Removes []int   `json:"removes,omitempty"`
 	Txs     []RelTx `json:"txs,omitempty"`
+	// Reimport: before this block the chain is restarted from its exported state
+	Reimport bool `json:"reimport,omitempty"`
 }
 
 type RelCase struct {
@@ -253,6 +255,12 @@ type relTxResult struct {
 func (w *relWorld) step(rb RelBlock) ([]relTxResult, *world.TwinResult, *Failure) {
 	f, m := w.f, w.m
 	sim := f.sim
+	if rb.Reimport {
+		if err := sim.Reimport(); err != nil {
+			return nil, nil, failf("re-import", "re-import-failed", "%v", err)
+		}
+		w.nt["reimported"] = true
+	}
 	rv, err := sim.Node.RelayerView()
 	if err != nil {
 		return nil, nil, failf("query", "query-failed", "%v", err)
@@ -416,9 +424,21 @@ func (w *relWorld) step(rb RelBlock) ([]relTxResult, *world.TwinResult, *Failure
 			break // a rejected transaction is the last one of its block (keeps the twin comparable)
 		}
 	}
-	tw, err := sim.ExecTwin(blk, without, with)
-	if err != nil {
-		return nil, nil, failf("block-processing", "block-failed", "%v", err)
+	var tw *world.TwinResult
+	if blk.Height <= sim.Chain.Initial {
+		// first block of a re-imported chain: twin execution needs a committed block, so this block is executed once
+		// (the twin comparison is vacuous for it)
+		r, err := sim.Exec(blk, with, false)
+		if err != nil {
+			return nil, nil, failf("block-processing", "block-failed", "%v", err)
+		}
+		d := sim.Node.DumpStores(sim.Node.CommittedCtx())
+		tw = &world.TwinResult{Block: blk, Without: r.Resp, With: r.Resp, DumpWithout: d, DumpWith: d}
+	} else {
+		tw, err = sim.ExecTwin(blk, without, with)
+		if err != nil {
+			return nil, nil, failf("block-processing", "block-failed", "%v", err)
+		}
 	}
 	for i := range results {
 		r := tw.With.TxResults[1+i]
@@ -686,6 +706,12 @@ func genRelCase(focus string) func(t *rapid.T) RelCase {
 				b.Txs = append(b.Txs, rt)
 			}
 			c.Blocks = append(c.Blocks, b)
+		}
+		// about a third of the histories are restarted from an exported state once or twice
+		if len(c.Blocks) > 3 && rapid.IntRange(0, 2).Draw(t, "reimport") == 0 {
+			for k, n := 0, rapid.IntRange(1, 2).Draw(t, "nreimport"); k < n; k++ {
+				c.Blocks[rapid.IntRange(1, len(c.Blocks)-1).Draw(t, "reimportAt")].Reimport = true
+			}
 		}
 		return c
 	}
